@@ -155,6 +155,14 @@ func c07P3(r *core.R) {
 				}
 				// ranges over slices are bounded
 			case *ast.ForStmt:
+				if ch := m.recvDrivenLoop(l); ch != nil && !s.deferredCtx() {
+					if _, isChan := m.info.TypeOf(ch).Underlying().(*types.Chan); isChan {
+						nloops++
+						// the explicit form of a range over an upstream channel
+						r.OK("loop@"+u.name+" range "+m.chanClass(u, ch), l.Pos(), "relay loop (`v, ok := <-ch; if !ok { leave }`) ends when the upstream channel is closed by its producer's deferred close")
+						return true
+					}
+				}
 				if !m.pipelineLoop(l) {
 					return true // a loop over in-memory data: bounded by the block being decoded
 				}
@@ -235,6 +243,14 @@ func (m *pbfModel) cyclesLeaveOnDone(s *pbfSite, loop *ast.ForStmt) (why, incomp
 		}
 		return st
 	}
+	// a range over the slice of per-worker channels has at least one element (there is at least one worker): it is not
+	// left before a first iteration; the cycle of an enclosing `for {}` therefore passes the range body
+	t.RangeExit = func(st int, rs *ast.RangeStmt, _ *FuncInfo) (int, bool) {
+		if st == fresh && m.isWorkerChanSlice(rs.X) {
+			return st, false
+		}
+		return st, true
+	}
 	// the analysis assumes the context is cancelled: tests of ctx.Err() are decided, everything else goes both ways
 	t.Edge = func(st int, cond ast.Expr, val bool, _ *FuncInfo) (int, bool) {
 		v := evalTri(cond, m.cancelledAtom)
@@ -262,7 +278,7 @@ func (m *pbfModel) pipelineLoop(loop *ast.ForStmt) bool {
 					found = true
 				}
 			case *ast.CallExpr:
-				if isPkgFunc(callee(m.info, x), "io", "ReadFull") {
+				if pbfIsReadCall(m.info, x) {
 					found = true
 				}
 			}
@@ -287,7 +303,7 @@ func (m *pbfModel) pipelineLoop(loop *ast.ForStmt) bool {
 			}
 		case *ast.CallExpr:
 			fn := callee(m.info, x)
-			if isPkgFunc(fn, "io", "ReadFull") {
+			if pbfIsReadCall(m.info, x) {
 				found = true
 			}
 			if fn != nil && m.funcs[fn] != nil && m.unitReaches(m.byDecl[fn], isPipe) {
@@ -374,7 +390,7 @@ func c07P4(r *core.R) {
 			return true
 		}
 		tu := m.unitOfFunc(fn)
-		if tu == nil || !m.unitReaches(tu, func(y *unit) bool { return m.unitCalls(y, "io", "ReadFull") }) {
+		if tu == nil || !m.unitReaches(tu, func(y *unit) bool { return m.unitReadsInput(y) }) {
 			return true
 		}
 		n++
